@@ -34,6 +34,7 @@ type c14Case struct {
 	Cut     int    `json:"prefix_len"`
 	Trailer string `json:"trailer_hex"`
 	Want    string `json:"decoded_fields_want,omitempty"`
+	Dirty   bool   `json:"reused_receiver,omitempty"`
 }
 
 func init() {
@@ -44,8 +45,20 @@ func init() {
 	})
 }
 
+// c14Dirty: when set, every decoder first decodes a valid OTHER object into the receiver it is about to use
+// (a reused variable): the second decode must fully replace it.
+var c14Dirty bool
+
+func seedHeader() []byte {
+	h, _ := wt.NewHeader(wt.Max, 0.25, archList(wsp.ParseLayout("1s:4s,2s:8s,4s:32s")))
+	return h.AppendTo(nil)
+}
+
 func decHeader(src []byte) ([]byte, error, []byte, string) {
 	h := &wt.Header{}
+	if c14Dirty {
+		h.TakeFrom(seedHeader())
+	}
 	rest, err := h.TakeFrom(src)
 	if err != nil {
 		return rest, err, nil, ""
@@ -56,6 +69,9 @@ func decHeader(src []byte) ([]byte, error, []byte, string) {
 
 func decSeries(src []byte) ([]byte, error, []byte, string) {
 	ts := &wt.TimeSeries{}
+	if c14Dirty {
+		ts.TakeFrom(wt.NewTimeSeries(100, 160, 10, []wt.Value{1, 2, 3, 4, 5, 6}).AppendTo(nil))
+	}
 	rest, err := ts.TakeFrom(src)
 	if err != nil {
 		return rest, err, nil, ""
@@ -65,6 +81,10 @@ func decSeries(src []byte) ([]byte, error, []byte, string) {
 
 func decPoints(src []byte) ([]byte, error, []byte, string) {
 	var pp wt.Points
+	if c14Dirty {
+		seed := wt.Points{{Time: 7, Value: 7}, {Time: 8, Value: 8}, {Time: 9, Value: 9}, {Time: 10, Value: 10}, {Time: 11, Value: 11}}
+		pp.TakeFrom(seed.AppendTo(nil))
+	}
 	rest, err := pp.TakeFrom(src)
 	if err != nil {
 		return rest, err, nil, ""
@@ -74,6 +94,9 @@ func decPoints(src []byte) ([]byte, error, []byte, string) {
 
 func decPoint(src []byte) ([]byte, error, []byte, string) {
 	var p wt.Point
+	if c14Dirty {
+		p = wt.Point{Time: 12345, Value: -6.5}
+	}
 	rest, err := p.TakeFrom(src)
 	if err != nil {
 		return rest, err, nil, ""
@@ -83,6 +106,9 @@ func decPoint(src []byte) ([]byte, error, []byte, string) {
 
 func decValue(src []byte) ([]byte, error, []byte, string) {
 	var v wt.Value
+	if c14Dirty {
+		v = -6.5
+	}
 	rest, err := v.TakeFrom(src)
 	if err != nil {
 		return rest, err, nil, ""
@@ -92,6 +118,9 @@ func decValue(src []byte) ([]byte, error, []byte, string) {
 
 func decTimestamp(src []byte) ([]byte, error, []byte, string) {
 	var t wt.Timestamp
+	if c14Dirty {
+		t = 0xdeadbeef
+	}
 	rest, err := t.TakeFrom(src)
 	if err != nil {
 		return rest, err, nil, ""
@@ -101,6 +130,9 @@ func decTimestamp(src []byte) ([]byte, error, []byte, string) {
 
 func decDuration(src []byte) ([]byte, error, []byte, string) {
 	var d wt.Duration
+	if c14Dirty {
+		d = -12345
+	}
 	rest, err := d.TakeFrom(src)
 	if err != nil {
 		return rest, err, nil, ""
@@ -110,6 +142,9 @@ func decDuration(src []byte) ([]byte, error, []byte, string) {
 
 func decArchiveInfo(src []byte) ([]byte, error, []byte, string) {
 	var a wt.ArchiveInfo
+	if c14Dirty {
+		a.TakeFrom([]byte{0, 0, 0, 99, 0, 0, 0, 77, 0, 0, 0, 55})
+	}
 	rest, err := a.TakeFrom(src)
 	if err != nil {
 		return rest, err, nil, ""
@@ -347,6 +382,17 @@ func runC14(c *fw.Ctx) {
 				c.Violate(sig, desc, len(k.enc)+len(tr), c14Case{Codec: k.name, Enc: hexs(k.enc), Cut: -1, Trailer: hexs(tr), Want: k.extraWant}, "")
 			}
 		}
+		// the same decode into a receiver that already holds another object
+		if k.name != "Timestamp" && k.name != "Duration" || len(k.enc) > 0 && k.enc[len(k.enc)-1]&0x3f == 0 {
+			c14Dirty = true
+			sig, desc, n := c14Eval(k, -1, nil)
+			c14Dirty = false
+			c.Count("evaluations", n)
+			c.Count("dirty_receiver_decodes", n)
+			if sig != "" {
+				c.Violate(sig+"/reused-receiver", "decoding into a variable that already holds another object: "+desc, len(k.enc)+1, c14Case{Codec: k.name, Enc: hexs(k.enc), Cut: -1, Want: k.extraWant, Dirty: true}, "")
+			}
+		}
 		// followed by a second full message
 		sig, desc, n := c14Eval(k, -1, k.enc)
 		c.Count("evaluations", n)
@@ -373,6 +419,8 @@ func replayC14(c *fw.Ctx, raw json.RawMessage) (bool, string) {
 	if err := json.Unmarshal(raw, &k); err != nil {
 		return false, err.Error()
 	}
+	c14Dirty = k.Dirty
 	sig, desc, _ := c14Eval(codec{name: k.Codec, enc: unhex(k.Enc), extraWant: k.Want}, k.Cut, unhex(k.Trailer))
+	c14Dirty = false
 	return sig != "", desc
 }
